@@ -287,7 +287,7 @@ Lemma elements_element_ids_spec l :
 Proof.
   induction l as [|[[k r] v] l IH]; intros H1 H2; [reflexivity|].
   inversion H1; inversion H2; subst. cbn [elements_element_ids map pack3] in *.
-  f_equal; [apply element_id_pack; assumption|apply IH; assumption].
+  f_equal; [rewrite struct_element_id_eq; apply element_id_pack; assumption|apply IH; assumption].
 Qed.
 
 Lemma elements_feature_ids_spec l :
@@ -296,7 +296,7 @@ Lemma elements_feature_ids_spec l :
 Proof.
   induction l as [|[[k r] v] l IH]; intros H1 H2; [reflexivity|].
   inversion H1 as [|? ? Hh ?]; inversion H2; subst. cbn [elements_feature_ids map] in *.
-  f_equal; [apply feature_id_pack; [assumption|exact (proj1 Hh)]|apply IH; assumption].
+  f_equal; [rewrite struct_feature_id_eq; apply feature_id_pack; [assumption|exact (proj1 Hh)]|apply IH; assumption].
 Qed.
 
 Lemma objects_object_ids_spec l :
@@ -305,7 +305,7 @@ Lemma objects_object_ids_spec l :
 Proof.
   induction l as [|[[k r] v] l IH]; intros H1; [reflexivity|].
   inversion H1; subst. cbn [objects_object_ids map] in *.
-  f_equal; [apply object_id_pack; assumption|apply IH; assumption].
+  f_equal; [rewrite struct_object_id_eq; apply object_id_pack; assumption|apply IH; assumption].
 Qed.
 
 (* ---------- collection-level id functions ---------- *)
